@@ -412,6 +412,9 @@ def run_kind_inventory(ck, F):
 
 def run(ck, tier):
     F = factsmod.Facts("ws")
+    # resumable varint decoder of the Avro reader: a short read must not lose or mis-shift the partial value (rules of C14)
+    from . import c14, core
+    c14.run_resumable(core.Renamed(ck, "C14.", "C18."), F)
     run_kind_inventory(ck, F)
     run_nodrop(ck, F)
     run_must(ck, F)
